@@ -10,7 +10,7 @@
      hll_pa / cms_pa every worker starts from a fresh sketch, runs its queue, the worker sketches
                      are merged by pm (HyperLogLog / linear count-min instances);
      ok_outs items   the fault-free run: item i = (what the callback does, what it returns).
-   The heavy-hitter instance is the same statement over HH.v's history type (not stated here). *)
+   The heavy-hitter instance (HH.v's history type) is at the end of the file. *)
 From Coq Require Import ZArith List Bool Permutation.
 From Sketchnu Require Import Machine Consts Hashes Ngram Hll HllProofs CmsLinear CmsLinearProofs CmsLinearHarness Merging MergingProofs.
 Import ListNotations.
@@ -210,4 +210,110 @@ Proof.
   split; [vm_compute; reflexivity|]. split; [repeat constructor|].
   split; [repeat constructor; cbn; discriminate|].
   repeat split; vm_compute; try reflexivity; discriminate.
+Qed.
+
+(* ====================================================================== *)
+(* heavy hitters (theories/HH.v, MergingHH.v).  From here on hist, eval, truth, mass, total, wf,
+   n_added, n_records are those of HH.v.  hh_pa = parallel_add over heavy-hitter worker sketches
+   (every worker = the adds of its items in its order, merged by the rounds with HH.hh_merge). *)
+(* ====================================================================== *)
+From Sketchnu Require Import HH HHProofs MergingHH MergingHHProofs.
+
+(* the result is eval of an HH merge tree whose leaves are, as a multiset, exactly the adds of the
+   items: truth, mass and total are those of the whole stream, so C03 and C04 apply verbatim *)
+Theorem C08_hh_inherits : forall (width depth max_key_len : nat) (bucket : nat -> key -> nat) (default_thr : Z -> Z)
+    (items : list (cms_item * Z)) (sched : list (list nat)),
+  sched <> [] /\ Permutation (concat sched) (seq 0 (length items)) ->
+  Forall (fun it => 0 <= snd it) items -> zsum (map snd items) < 2^64 ->
+  exists T : hist,
+    pm hist HMerge (map (hh_worker_hist (map fst items)) sched) = Some T /\
+    hh_pa width depth max_key_len bucket (ok_outs items) sched =
+      Some (hh_with_records (eval width depth max_key_len bucket default_thr T) (zsum (map snd items))) /\
+    Permutation (leaves T) (leaves (hh_seq_hist (map fst items))) /\
+    (forall x, truth max_key_len T x = truth max_key_len (hh_seq_hist (map fst items)) x) /\
+    (forall r c, mass max_key_len bucket T r c = mass max_key_len bucket (hh_seq_hist (map fst items)) r c) /\
+    total T = total (hh_seq_hist (map fst items)) /\
+    (Forall hh_item_wf (map fst items) -> wf T).
+Proof. exact C08_hh_inherits_thm. Qed.
+Print Assumptions C08_hh_inherits.
+
+Theorem C08_hh_stream : forall E : list cms_item, leaves (hh_seq_hist E) = concat E.
+Proof. exact leaves_seq. Qed.
+Print Assumptions C08_hh_stream.
+
+(* C03 w.r.t. the whole stream: hh[k] never exceeds the stream count of k's identity, every
+   reported (key, n) has 0 < n <= its stream count; n_records = sum of the callback's returns *)
+Theorem C08_hh_no_overcount : forall (width depth max_key_len : nat) (bucket : nat -> key -> nat) (default_thr : Z -> Z),
+  (forall r k, (bucket r k < width)%nat) -> (max_key_len <= 255)%nat ->
+  forall (items : list (cms_item * Z)) (sched : list (list nat)),
+  sched <> [] /\ Permutation (concat sched) (seq 0 (length items)) ->
+  Forall (fun it => 0 <= snd it) items -> zsum (map snd items) < 2^64 ->
+  Forall hh_item_wf (map fst items) ->
+  exists s, hh_pa width depth max_key_len bucket (ok_outs items) sched = Some s /\
+    n_records s = zsum (map snd items) /\
+    (forall k, hh_get depth max_key_len bucket s k
+               <= truth max_key_len (hh_seq_hist (map fst items)) (ident max_key_len k)) /\
+    (forall kk thr x n, In (x, n) (snd (hh_query width depth max_key_len bucket default_thr s kk thr)) ->
+                        0 < n <= truth max_key_len (hh_seq_hist (map fst items)) x).
+Proof. exact C08_hh_no_overcount_thm. Qed.
+Print Assumptions C08_hh_no_overcount.
+
+(* C04 w.r.t. the whole stream: a key holding more than half of the stream is reported first with
+   a count >= 2f - N; per row, hh[k] >= 2f - (row mass) whenever that is positive *)
+Theorem C08_hh_majority : forall (width depth max_key_len : nat) (bucket : nat -> key -> nat) (default_thr : Z -> Z),
+  (forall r k, (bucket r k < width)%nat) -> (max_key_len <= 255)%nat ->
+  forall (items : list (cms_item * Z)) (sched : list (list nat)),
+  sched <> [] /\ Permutation (concat sched) (seq 0 (length items)) ->
+  Forall (fun it => 0 <= snd it) items -> zsum (map snd items) < 2^64 ->
+  Forall hh_item_wf (map fst items) -> (0 < depth)%nat ->
+  exists s, hh_pa width depth max_key_len bucket (ok_outs items) sched = Some s /\
+    (forall x thr, total (hh_seq_hist (map fst items)) < 2^32 ->
+       2 * truth max_key_len (hh_seq_hist (map fst items)) x > total (hh_seq_hist (map fst items)) ->
+       thr_of default_thr s thr
+         <= 2 * truth max_key_len (hh_seq_hist (map fst items)) x - total (hh_seq_hist (map fst items)) ->
+       exists n, hd_error (snd (hh_query width depth max_key_len bucket default_thr s (Some 1) thr)) = Some (x, n) /\
+                 n >= 2 * truth max_key_len (hh_seq_hist (map fst items)) x - total (hh_seq_hist (map fst items)) /\
+                 n = hh_get depth max_key_len bucket s x) /\
+    (forall k r, (r < depth)%nat ->
+       let x := ident max_key_len k in
+       mass max_key_len bucket (hh_seq_hist (map fst items)) r (bucket r x) < 2^32 ->
+       0 < 2 * truth max_key_len (hh_seq_hist (map fst items)) x
+           - mass max_key_len bucket (hh_seq_hist (map fst items)) r (bucket r x) ->
+       hh_get depth max_key_len bucket s k >=
+       2 * truth max_key_len (hh_seq_hist (map fst items)) x
+       - mass max_key_len bucket (hh_seq_hist (map fst items)) r (bucket r x)).
+Proof. exact C08_hh_majority_thm. Qed.
+Print Assumptions C08_hh_majority.
+
+(* n_added() = total multiplicity when no multiplicity exceeds 2^32 - 1 *)
+Theorem C08_hh_nadded : forall (width depth max_key_len : nat) (bucket : nat -> key -> nat) (default_thr : Z -> Z)
+    (items : list (cms_item * Z)) (sched : list (list nat)),
+  sched <> [] /\ Permutation (concat sched) (seq 0 (length items)) ->
+  Forall (fun it => 0 <= snd it) items -> zsum (map snd items) < 2^64 ->
+  Forall hh_item_small (map fst items) ->
+  exists s, hh_pa width depth max_key_len bucket (ok_outs items) sched = Some s /\
+            n_added s = zsum (map item_total (map fst items)).
+Proof. exact C08_hh_nadded_thm. Qed.
+Print Assumptions C08_hh_nadded.
+
+(* non-vacuity: width 1 (every key shares the cell of each row), alias keys a / a+NUL, the items
+   of ex_cms_items on three workers (one idle): key a holds 4 of 11 ... *)
+Definition ex_hh_items : list (cms_item * Z) :=
+  [([([97], 5); ([97; 0], 1)], 2); ([], 0); ([([98], 2); ([97], 2)], 3); ([([97], 1)], 1)].
+Example C08_hh_nonvacuous :
+  let b := fun (_ : nat) (_ : key) => O in
+  (forall r k, (b r k < 1)%nat) /\ (4 <= 255)%nat /\
+  (ex_sched <> [] /\ Permutation (concat ex_sched) (seq 0 (length ex_hh_items))) /\
+  Forall (fun it => 0 <= snd it) ex_hh_items /\ zsum (map snd ex_hh_items) < 2^64 /\
+  Forall hh_item_wf (map fst ex_hh_items) /\ Forall hh_item_small (map fst ex_hh_items) /\ (0 < 2)%nat /\
+  (truth 4 (hh_seq_hist (map fst ex_hh_items)) [97], total (hh_seq_hist (map fst ex_hh_items))) = (8, 11) /\
+  option_map (fun s => (hh_get 2 4 b s [97], hh_get 2 4 b s [97; 0], n_added s, n_records s,
+                        snd (hh_query 1 2 4 b (fun n => n / 2) s (Some 1) None)))
+             (hh_pa 1 2 4 b (ok_outs ex_hh_items) ex_sched) = Some (5, 0, 11, 6, [([97], 5)]).
+Proof.
+  cbv zeta. split; [intros; constructor|]. split; [repeat constructor|]. split; [exact C08_sched_nonvacuous|].
+  split; [repeat constructor; cbn; discriminate|]. split; [vm_compute; reflexivity|].
+  split; [repeat constructor; cbn; try discriminate; reflexivity|].
+  split; [repeat constructor; cbn; discriminate|]. split; [repeat constructor|].
+  split; vm_compute; reflexivity.
 Qed.
